@@ -12,7 +12,9 @@ package main
 //             rtb+dx — exact arithmetic keeps the iterate strictly inside the bracket)
 //  deltaT     deltaT == dry − wet, bit for bit (it is that one float64 subtraction)
 //  dew↑       at equal temperature, RH2 ≥ RH1·(1+1e-9) ⇒ dew2 > dew1
-// Recorded, not raised (DESIGN §6 C20): samples with dew point > dry bulb (RH = 100 %, T ≳ 31 °C; Magnus vs Goff-Gratch).
+//  ordered    the ORDERED reading dew ≤ wet ≤ dry: fails for samples with dew point > dry bulb (RH = 100 %, T ≳ 31 °C; Magnus vs
+//             Goff-Gratch) — reported under the scope ClimateVariables:dewpoint-above-drybulb = known finding
+//             KF-C20-dewpoint-above-drybulb (one report per call)
 
 import (
 	"fmt"
@@ -30,6 +32,7 @@ func init() {
 		dry, hum := k.In[0], k.In[1]
 		vp, dew, wet, dT := r.Out[0], r.Out[1], r.Out[2], r.Out[3]
 		T := k.T()
+		dewAboveDryReported := false // one report per call
 		for i := 0; i < T; i++ {
 			in := fmt.Sprintf("sample %d: dryBulb=%v humidity=%v elevation=%v → vp=%v dew=%v wet=%v deltaT=%v", i, dry[i], hum[i], k.P[0], vp[i], dew[i], wet[i], dT[i])
 			if !allFinite([]float64{vp[i], dew[i], wet[i], dT[i]}) {
@@ -52,9 +55,19 @@ func init() {
 			}
 			if dew[i] > dry[i] {
 				c.Stats.Count("C20:dew>dry (recorded)")
-				if ex := dew[i] - dry[i]; ex > 0.0065 {
-					// the documented excess is ≤ 0.006 °C; a larger one is new information, but still not a violation
+				ex := dew[i] - dry[i]
+				if ex > 0.0065 {
+					// the documented excess is ≤ 0.006 °C; a larger one is new information
 					c.Stats.Count("C20:dew>dry by more than 0.0065")
+				}
+				// The ORDERED reading of "the wet-bulb temperature lies between the dew point and the dry-bulb temperature"
+				// (dew ≤ wet ≤ dry) fails here: the dew point is above the dry bulb, the wet bulb is not below the dry bulb and
+				// deltaT ≤ 0 (Lean: dewPoint_exceeds_dryBulb_example, ordered_reading_counterexample). Own scope = known finding
+				// KF-C20-dewpoint-above-drybulb. Slack 1e-9·max(|dry|,1): at RH = 100 % a consistent pair of formulas gives
+				// dew = dry up to rounding, which must not fire. The order-free reading is checked above (wetbulb-between).
+				if ex > 1e-9*math.Max(math.Abs(dry[i]), 1) && !dewAboveDryReported {
+					dewAboveDryReported = true
+					c.OracleFail(id, "ClimateVariables:dewpoint-above-drybulb", fmt.Sprintf("dew point above dry bulb by %g °C (wet bulb − dry bulb = %g, deltaT = %g): the ordered reading dew ≤ wet ≤ dry fails; %s", ex, wet[i]-dry[i], dT[i], in), body)
 				}
 			}
 		}
